@@ -11,7 +11,7 @@ import Aegean.Model.C13
   curve imgH imgW xmin xmax ymin ymax r0 c0 sh sw <sh*sw img>
                                                        -> islandCurve over the island box, row-major ints
                                                           (img given on the sub-rectangle [r0,r0+sh) × [c0,c0+sw))
-  est h w inner outer maxS <h*w data> <h*w rms> <h*w curve ints>
+  est h w inner outer maxS <h*w data> <h*w rms> <h*w sampling> <h*w curve ints>
                                                        -> "neg=<0|1> none"  or  "neg=<0|1> amp min max xo yo flags vary psfvary;..."
                                                           (maxS = -1 for None)
   filter np nn <fluxes>                                -> indices kept by the polarity filter
@@ -66,15 +66,16 @@ def handle (ws : List String) : String :=
     match h.toNat?, w.toNat?, parseFloat? inner, parseFloat? outer, maxS.toInt? with
     | some h, some w, some inner, some outer, some maxS =>
       let n := h * w
-      if rest.length != 3 * n then "bad-op" else
-      match floats? (rest.take (2 * n)), (rest.drop (2 * n)).mapM String.toInt? with
+      if rest.length != 4 * n then "bad-op" else
+      match floats? (rest.take (3 * n)), (rest.drop (3 * n)).mapM String.toInt? with
       | some a, some cl =>
         let cv := cl.toArray
         let I : Island Float :=
           { h := h, w := w,
             data := fun p => if inGrid h w p then optF (a.getD (idx w p) (0.0 / 0.0)) else none,
             rms := fun p => a.getD (n + idx w p) (0.0 / 0.0),
-            curve := fun p => cv.getD (idx w p) 0 }
+            curve := fun p => cv.getD (idx w p) 0,
+            sampling := fun p => a.getD (2 * n + idx w p) (0.0 / 0.0) }
         let P : Params Float := { inner := inner, outer := outer,
                                   maxSummits := if maxS < 0 then none else some maxS.toNat }
         let pre := s!"neg={b01 (isNegative I)} "
